@@ -311,8 +311,8 @@ def model_edits(kind, r, vs, target, k):
             out.append(f'{target}.fix_variable({v!r}, 1)')
         elif e == 'change_vartype' and kind == 'bqm':
             out.append(f"{target}.change_vartype('SPIN' if {target}.vartype is dimod.BINARY else 'BINARY', inplace=True)")
-        elif e == 'bounds' and kind == 'cqm':
-            out.append(f'{target}.set_upper_bound({v!r}, 3)')
+        elif e == 'bounds' and kind in ('cqm', 'qm'):
+            out.append(f'{target}.set_upper_bound({v!r}, 3)' if r.random() < .6 else f'{target}.set_lower_bound({v!r}, -1)')
         elif e == 'constraint_lhs' and kind == 'cqm':
             out.append(f"{target}.constraints['c0'].lhs.add_linear({v!r}, 2.0)")
             out.append(f"{target}.constraints['c0'].lhs.offset += 1.0")
